@@ -68,12 +68,8 @@ func c10CheckCiphertext(key, p, ct []byte, chunks [][]byte) error {
 		return fmt.Errorf("pad-length octet is %d, want %d", pt[len(pt)-1], k16-n-1)
 	}
 	if chunks != nil {
-		found := false
-		for _, c := range chunks {
-			if len(c) == 16 && bytes.Equal(c, ct[:16]) {
-				found = true
-			}
-		}
+		// the IV must be 16 consecutive octets of what the source handed out during this call
+		found := bytes.Contains(bytes.Join(chunks, nil), ct[:16])
 		if !found {
 			return fmt.Errorf("IV %x was not drawn from the random source during this call (chunks handed out: %d)", ct[:16], len(chunks))
 		}
